@@ -171,12 +171,33 @@ def kwargs_of(a):
     return kw
 
 
+@contextlib.contextmanager
+def mip_patch(preprocess_off=False, capture=None):
+    """wraps mip.Model.optimize (no source change): optionally switches CBC preprocessing off and/or
+    hands the fully built model to `capture` before it is solved"""
+    import mip
+    orig = mip.Model.optimize
+
+    def opt(self, *a, **kw):
+        if preprocess_off:
+            self.preprocess = 0
+        if capture is not None:
+            capture(self)
+        return orig(self, *a, **kw)
+    mip.Model.optimize = opt
+    try:
+        yield
+    finally:
+        mip.Model.optimize = orig
+
+
 def p_partition(a):
     items, valueof, decode = make_items(a["vals"], a.get("ids", a["vals"]), a["fmt"])
     algo = PART_ALGOS[a["algo"]]()
     kw = kwargs_of(a)
     ctx = silence_fd1() if a["algo"] == "ilp" else contextlib.nullcontext()
-    with ctx:
+    ctx2 = mip_patch(preprocess_off=True) if a.get("preprocess_off") else contextlib.nullcontext()
+    with ctx, ctx2:
         res = prtpy.partition(algorithm=algo, numbins=a["k"], items=items, valueof=valueof,
                               outputtype=OUTTYPES[a["out"]](), **kw)
     return enc_output(a["out"], res, decode)
